@@ -301,4 +301,77 @@ theorem isB64_subst_none (body : Bytes) (hb : Bytes.WF body) (hlen : body.length
     simp only [syndOK, hEd, ← crcV_toNat _ hEtw, bne_iff_ne, ne_eq, List.cons.injEq, and_true, not_and] at htab
     exact htab hx hy
 
+/-! ### the friendly form produced by `to_str` -/
+
+/-- the tag byte written by `to_str`. -/
+def tagOf (bounceable testOnly : Bool) : Nat :=
+  let tag := if bounceable then 0x11 else 0x51
+  if testOnly then tag ||| 0x80 else tag
+
+/-- tag, workchain byte, hash: the 34 bytes covered by the checksum. -/
+def bodyOf (a : Addr) (bounceable testOnly : Bool) : Bytes :=
+  tagOf bounceable testOnly :: (a.wc % 256).toNat :: a.hash
+
+theorem tagOf_lt (b t : Bool) : tagOf b t < 256 := by cases b <;> cases t <;> decide
+
+theorem bodyOf_wf (a : Addr) (b t : Bool) (hw : Bytes.WF a.hash) : Bytes.WF (bodyOf a b t) := by
+  intro x hx
+  simp only [bodyOf, List.mem_cons] at hx
+  rcases hx with rfl | rfl | hx
+  · exact tagOf_lt b t
+  · omega
+  · exact hw x hx
+
+theorem codeword_wf (body : Bytes) (hb : Bytes.WF body) : Bytes.WF (body ++ be16N (crcV body)) := by
+  intro x hx
+  rw [List.mem_append] at hx
+  rcases hx with hx | hx
+  · exact hb x hx
+  · exact be16N_wf _ x hx
+
+/-- `to_str(user-friendly)` of an address with a workchain in -128..127: base64 of body ++ crc16(body). -/
+theorem toStr_friendly (a : Addr) (url b t : Bool) (hw : Bytes.WF a.hash) (hwc : -128 ≤ a.wc ∧ a.wc ≤ 127) :
+    toStr a true url b t = some (encode url (bodyOf a b t ++ be16N (crcV (bodyOf a b t)))) := by
+  have hcrc := model_crc16 (bodyOf a b t) (bodyOf_wf a b t hw)
+  unfold bodyOf tagOf at hcrc
+  simp only [toStr, wcByte?, hwc, and_self, if_true, Bool.not_true, Bool.false_eq_true, if_false]
+  simp only [hcrc]
+  rfl
+
+/-- conversely `to_str(user-friendly)` raises for any other workchain. -/
+theorem toStr_friendly_none (a : Addr) (url b t : Bool) (hwc : ¬ (-128 ≤ a.wc ∧ a.wc ≤ 127)) :
+    toStr a true url b t = none := by
+  simp [toStr, wcByte?, hwc]
+
+theorem signedByte_wc (wc : Int) (hwc : -128 ≤ wc ∧ wc ≤ 127) : signedByte [(wc % 256).toNat] = wc := by
+  unfold signedByte
+  simp only
+  split <;> omega
+
+/-- `is_b64` on the text of a codeword whose body is `tagOf b t :: wc byte :: 32-byte hash`. -/
+theorem isB64_friendly (a : Addr) (url b t : Bool) (hw : Bytes.WF a.hash) (hlen : a.hash.length = 32)
+    (hwc : -128 ≤ a.wc ∧ a.wc ≤ 127) :
+    isB64 (encode url (bodyOf a b t ++ be16N (crcV (bodyOf a b t))))
+      = some { wc := a.wc, hash := a.hash, bounceable := b, testOnly := t } := by
+  have hbw := bodyOf_wf a b t hw
+  have hblen : (bodyOf a b t).length = 34 := by simp [bodyOf, hlen]
+  have hdec := decodeUrlsafe_encode url _ (codeword_wf _ hbw)
+  have ht : (bodyOf a b t ++ be16N (crcV (bodyOf a b t))).take 34 = bodyOf a b t := List.take_left' hblen
+  have hd : (bodyOf a b t ++ be16N (crcV (bodyOf a b t))).drop 34 = be16N (crcV (bodyOf a b t)) :=
+    List.drop_left' hblen
+  have hcrc := model_crc16 _ hbw
+  generalize hC : be16N (crcV (bodyOf a b t)) = C at *
+  unfold isB64
+  rw [hdec]
+  have hsplit : bodyOf a b t ++ C = tagOf b t :: ((a.wc % 256).toNat :: a.hash ++ C) := rfl
+  rw [hsplit] at ht hd ⊢
+  simp only [ht, hd, hcrc, bne_self_eq_false, Bool.false_eq_true, if_false]
+  have h1 : ((tagOf b t :: ((a.wc % 256).toNat :: a.hash ++ C)).drop 1).take 1 = [(a.wc % 256).toNat] := by
+    simp
+  have h2 : ((tagOf b t :: ((a.wc % 256).toNat :: a.hash ++ C)).drop 2).take 32 = a.hash := by
+    simp only [List.drop_succ_cons, List.cons_append, List.drop_zero]
+    exact List.take_left' hlen
+  rw [h1, h2, signedByte_wc a.wc hwc]
+  cases b <;> cases t <;> rfl
+
 end TonVerif.Proofs.Address
